@@ -118,7 +118,10 @@ def register(reg):
     )
 
     # ---- _RangeWrapper: the body of a 206 is exactly whole[start : start + byte_range] ----------
-    Chunks = reg.model("ChunkIter", fields={"whole": "bytes", "pos": "int", "seekable_": "bool"})
+    Chunks = reg.model("ChunkIter", fields={"whole": "bytes", "pos": "int", "seekable_": "bool", "has_seekable": "bool"},
+                       hasattr={"seekable": "has_seekable"})
+    reg.contract("model:ChunkIter.seekable", prop=P, trusted=True, param_names=["self"], returns="bool", modifies=[],
+                 ensures=["result == self.seekable_"])
     reg.contract(
         "model:ChunkIter.__next__", prop=P, trusted=True, param_names=["self"], returns="bytes",
         modifies=["self.pos"],
@@ -177,6 +180,19 @@ def register(reg):
         raises={"StopIteration": "old(self.end_reached) or (self.end_byte is not None and old(cursor(self)) >= self.end_byte) "
                                  "or self.iterable.pos >= len(self.iterable.whole)"},
         raises_ensures={"StopIteration": ["self.end_reached"]},
+    )
+
+    # the constructor establishes the wrapper's invariant for a fresh body iterator (base case: __next__ requires and keeps J_rw)
+    reg.contract(
+        "werkzeug/wsgi.py:_RangeWrapper.__init__", prop=P, self_model=RW,
+        params={"iterable": Chunks, "start_byte": "int", "byte_range": "Optional[int]"},
+        requires=["iterable.pos == 0", "start_byte >= 0", "byte_range is None or byte_range >= 0"],
+        ensures=["J_rw(self)", "self.iterable is iterable", "self.start_byte == start_byte", "self.byte_range == byte_range",
+                 "self.read_length == 0 and not self.end_reached",
+                 "(self.end_byte is None) == (byte_range is None)",
+                 "byte_range is None or self.end_byte == start_byte + byte_range",
+                 "self.seekable == (iterable.has_seekable and iterable.seekable_)"],
+        raises={},
     )
 
     # ---- validators: is_resource_modified ----------------------------------------------------
@@ -290,8 +306,30 @@ def _register_process_range(reg):
                  note="If-Range evaluation (is_resource_modified, its own contract) and presence of a Range header")
     reg.contract("werkzeug/wrappers/response.py:Response._wrap_range_response", prop="C11", trusted=True,
                  params={"start": "int", "length": "int"}, modifies=["self.g_wrapped", "self.g_start", "self.g_len"],
+                 requires=["start >= 0", "length >= 0"],     # what _RangeWrapper.__init__ needs (its own contract); body: #verify below
                  ensures=["self.g_wrapped == (self._status_code == 206)", "self.g_start == start and self.g_len == length"],
                  note="wraps the body in _RangeWrapper(start, length) when the status is 206 (the wrapper's own contract: __next__)")
+    RW = reg.models["_RangeWrapper"]
+    RB = reg.model("RangeResponseBody", cls="werkzeug/wrappers/response.py:Response",
+                   fields={"_status_code": "int", "response": reg.models["ChunkIter"]})
+    reg.contract(
+        "werkzeug/wrappers/response.py:Response._wrap_range_response#verify", prop="C11", self_model=RB,
+        params={"start": "int", "length": "int"},
+        # the wrapper's constructor is executed in place (its own contract, above, proves the same facts for every caller):
+        # a postcondition about object identity (`self.iterable is iterable`) cannot be assumed onto a fresh object
+        inline_callees=["werkzeug/sansio/response.py:Response.status_code", "werkzeug/wsgi.py:_RangeWrapper.__init__"],
+        requires=["start >= 0", "length >= 0", "self.response.pos == 0"],
+        ensures=[
+            # a 206 serves the body through a wrapper over the same iterator, set to exactly the announced slice and
+            # satisfying the wrapper's invariant (what _RangeWrapper.__next__ requires)
+            "implies(self._status_code == 206, isinstance(self.response, _RangeWrapper) and self.response.iterable is old(self.response) "
+            "        and self.response.start_byte == start and self.response.byte_range == length and J_rw(self.response))",
+            # any other status leaves the body alone
+            "implies(self._status_code != 206, self.response is old(self.response))",
+            "self._status_code == old(self._status_code)",
+        ],
+        raises={},
+    )
     reg.spec("lo1(r, n)", "want_lo(r.ranges[0][0], r.ranges[0][1], n)")
     reg.spec("hi1(r, n)", "want_hi(r.ranges[0][0], r.ranges[0][1], n)")
     reg.contract(
